@@ -508,3 +508,230 @@ func VxC03_SetOps() {
 	}
 	vxCheckSelect(cur, specs[0], "leftmost operand")
 }
+
+// ---------------------------------------------------------------------------
+// joins: every join of a chain appears with the kind, table, alias and condition written for it
+
+var vxJoinKinds = []struct{ sql, typ string }{
+	{"JOIN", "INNER"}, {"INNER JOIN", "INNER"}, {"LEFT JOIN", "LEFT"}, {"LEFT OUTER JOIN", "LEFT"}, {"RIGHT JOIN", "RIGHT"},
+	{"RIGHT OUTER JOIN", "RIGHT"}, {"FULL JOIN", "FULL"}, {"FULL OUTER JOIN", "FULL"}, {"CROSS JOIN", "CROSS"},
+}
+
+var vxJoinToks = func() [][]token.Token {
+	var out [][]token.Token
+	for _, k := range vxJoinKinds {
+		out = append(out, VxFixed(k.sql))
+	}
+	return out
+}()
+
+func vxJoins(maxN int) {
+	n := vx.Choice(maxN) + 1
+	toks := append([]token.Token{}, VxFixed("SELECT c FROM t")...)
+	kinds := make([]int, n)
+	tabs := make([]token.Token, n)
+	aliased := make([]bool, n)
+	using := make([]bool, n)
+	for k := 0; k < n; k++ {
+		kinds[k] = vx.Choice(len(vxJoinKinds))
+		toks = append(toks, vxJoinToks[kinds[k]]...)
+		tabs[k] = vxNames.Tok()
+		toks = append(toks, tabs[k])
+		if aliased[k] = vx.Bool(); aliased[k] {
+			toks = append(toks, VxFixed("x")...)
+		}
+		if vxJoinKinds[kinds[k]].typ != "CROSS" {
+			if using[k] = vx.Bool(); using[k] {
+				toks = append(toks, VxFixed("USING ( a )")...)
+			} else {
+				toks = append(toks, VxFixed("ON a = b")...)
+			}
+		}
+	}
+	toks = append(toks, VxEOF)
+	VxNoteToks(toks)
+	tree, err := NewParser().Parse(toks)
+	vx.Assertf("C03.join_accept", err == nil, "join chain of the documented surface rejected: %v", err)
+	if err != nil {
+		return
+	}
+	sel, ok := tree.Statements[0].(*ast.SelectStatement)
+	vx.Assert("C03.select", ok && sel != nil)
+	if !ok || sel == nil {
+		return
+	}
+	vx.Assertf("C03.join_count", len(sel.Joins) == n, "%d joins written, %d in the tree", n, len(sel.Joins))
+	if len(sel.Joins) != n {
+		return
+	}
+	for k, j := range sel.Joins {
+		vx.Assertf("C03.join_kind", j.Type == vxJoinKinds[kinds[k]].typ, "join %d written as %s, tree says %q", k, vxJoinKinds[kinds[k]].sql, j.Type)
+		vx.Assertf("C03.join_table", j.Right.Name == tabs[k].Literal, "join %d: table written %q, tree has %q", k, tabs[k].Literal, j.Right.Name)
+		wantAlias := ""
+		if aliased[k] {
+			wantAlias = "x"
+		}
+		vx.Assertf("C03.join_alias", j.Right.Alias == wantAlias, "join %d: alias written %q, tree has %q", k, wantAlias, j.Right.Alias)
+		switch {
+		case vxJoinKinds[kinds[k]].typ == "CROSS":
+			vx.Assertf("C03.join_condition", j.Condition == nil, "join %d: CROSS JOIN with a condition", k)
+		case using[k]:
+			vx.Assertf("C03.join_condition", vxIdentIs(j.Condition, "a"), "join %d: USING ( a ) not in the tree", k)
+		default:
+			b, ok := j.Condition.(*ast.BinaryExpression)
+			vx.Assertf("C03.join_condition", ok && b != nil && b.Operator == "=" && vxIdentIs(b.Left, "a") && vxIdentIs(b.Right, "b"), "join %d: ON a = b not in the tree", k)
+		}
+	}
+	vx.Assertf("C03.join_from", len(sel.From) == 1 && sel.From[0].Name == "t", "FROM t not kept")
+}
+
+func VxC03_Joins2() { vxJoins(2) }
+func VxC03_Joins3() { vxJoins(3) }
+
+// ---------------------------------------------------------------------------
+// DML: INSERT rows, UPDATE assignments and DELETE appear as written
+
+func vxLitIs(e ast.Expression, text string) bool {
+	l, ok := e.(*ast.LiteralValue)
+	if !ok || l == nil {
+		return false
+	}
+	s, ok := l.Value.(string)
+	return ok && s == text
+}
+
+func VxC03_Insert() {
+	toks := append([]token.Token{}, VxFixed("INSERT INTO t")...)
+	ncols := vx.Choice(3) // 0: no column list
+	for k := 0; k < ncols; k++ {
+		if k == 0 {
+			toks = append(toks, VxFixed("(")...)
+		} else {
+			toks = append(toks, VxFixed(",")...)
+		}
+		toks = append(toks, VxFixed([]string{"a", "b"}[k])...)
+	}
+	if ncols > 0 {
+		toks = append(toks, VxFixed(")")...)
+	}
+	width := ncols
+	if width == 0 {
+		width = 1 + vx.Choice(2)
+	}
+	nrows := 1 + vx.Choice(3)
+	toks = append(toks, VxFixed("VALUES")...)
+	vals := make([][]token.Token, nrows)
+	for r := 0; r < nrows; r++ {
+		if r > 0 {
+			toks = append(toks, VxFixed(",")...)
+		}
+		toks = append(toks, VxFixed("(")...)
+		for c := 0; c < width; c++ {
+			if c > 0 {
+				toks = append(toks, VxFixed(",")...)
+			}
+			v := vxNums.Tok()
+			vals[r] = append(vals[r], v)
+			toks = append(toks, v)
+		}
+		toks = append(toks, VxFixed(")")...)
+	}
+	toks = append(toks, VxEOF)
+	VxNoteToks(toks)
+	tree, err := NewParser().Parse(toks)
+	vx.Assertf("C03.insert_accept", err == nil, "INSERT of the documented surface rejected: %v", err)
+	if err != nil {
+		return
+	}
+	ins, ok := tree.Statements[0].(*ast.InsertStatement)
+	vx.Assert("C03.insert", ok && ins != nil)
+	if !ok || ins == nil {
+		return
+	}
+	vx.Assertf("C03.insert_shape", ins.TableName == "t" && len(ins.Columns) == ncols && len(ins.Values) == nrows, "table %q, %d columns, %d rows in the tree; written t, %d, %d", ins.TableName, len(ins.Columns), len(ins.Values), ncols, nrows)
+	if len(ins.Values) != nrows {
+		return
+	}
+	for r := range ins.Values {
+		vx.Assertf("C03.insert_row", len(ins.Values[r]) == width, "row %d has %d values, %d written", r, len(ins.Values[r]), width)
+		if len(ins.Values[r]) != width {
+			return
+		}
+		for c := range ins.Values[r] {
+			vx.Assertf("C03.insert_value", vxLitIs(ins.Values[r][c], vals[r][c].Literal), "row %d value %d: written %q, tree has %s", r, c, vals[r][c].Literal, vx.Dump(ins.Values[r][c]))
+		}
+	}
+}
+
+func VxC03_UpdateDelete() {
+	if vx.Bool() {
+		toks := append([]token.Token{}, VxFixed("DELETE FROM")...)
+		tab := vxNames.Tok()
+		toks = append(toks, tab)
+		where := vx.Bool()
+		var wc token.Token
+		if where {
+			toks = append(toks, VxFixed("WHERE")...)
+			wc = vxNames.Tok()
+			toks = append(toks, wc)
+			toks = append(toks, VxFixed("= 1")...)
+		}
+		toks = append(toks, VxEOF)
+		VxNoteToks(toks)
+		tree, err := NewParser().Parse(toks)
+		vx.Assertf("C03.delete_accept", err == nil, "DELETE rejected: %v", err)
+		if err != nil {
+			return
+		}
+		del, ok := tree.Statements[0].(*ast.DeleteStatement)
+		vx.Assert("C03.delete", ok && del != nil)
+		if ok && del != nil {
+			vx.Assertf("C03.delete_shape", del.TableName == tab.Literal && (del.Where != nil) == where && len(del.Using) == 0, "DELETE FROM %q WHERE=%v parsed as table %q WHERE=%v", tab.Literal, where, del.TableName, del.Where != nil)
+			if where && del.Where != nil {
+				b, ok := del.Where.(*ast.BinaryExpression)
+				vx.Assertf("C03.delete_where", ok && b != nil && vxIdentIs(b.Left, wc.Literal), "WHERE column not kept")
+			}
+		}
+		return
+	}
+	toks := append([]token.Token{}, VxFixed("UPDATE")...)
+	tab := vxNames.Tok()
+	toks = append(toks, tab)
+	toks = append(toks, VxFixed("SET")...)
+	n := 1 + vx.Choice(3)
+	cols := make([]token.Token, n)
+	vals := make([]token.Token, n)
+	for k := 0; k < n; k++ {
+		if k > 0 {
+			toks = append(toks, VxFixed(",")...)
+		}
+		cols[k] = vxNames.Tok()
+		vals[k] = vxNums.Tok()
+		toks = append(toks, cols[k])
+		toks = append(toks, VxFixed("=")...)
+		toks = append(toks, vals[k])
+	}
+	where := vx.Bool()
+	if where {
+		toks = append(toks, VxFixed("WHERE a = 1")...)
+	}
+	toks = append(toks, VxEOF)
+	VxNoteToks(toks)
+	tree, err := NewParser().Parse(toks)
+	vx.Assertf("C03.update_accept", err == nil, "UPDATE rejected: %v", err)
+	if err != nil {
+		return
+	}
+	up, ok := tree.Statements[0].(*ast.UpdateStatement)
+	vx.Assert("C03.update", ok && up != nil)
+	if !ok || up == nil {
+		return
+	}
+	vx.Assertf("C03.update_shape", up.TableName == tab.Literal && len(up.Assignments) == n && (up.Where != nil) == where, "UPDATE %q with %d assignments WHERE=%v parsed as %q, %d, %v", tab.Literal, n, where, up.TableName, len(up.Assignments), up.Where != nil)
+	if len(up.Assignments) != n {
+		return
+	}
+	for k, a := range up.Assignments {
+		vx.Assertf("C03.update_assignment", vxIdentIs(a.Column, cols[k].Literal) && vxLitIs(a.Value, vals[k].Literal), "assignment %d: written %q = %q, tree has %s = %s", k, cols[k].Literal, vals[k].Literal, vx.Dump(a.Column), vx.Dump(a.Value))
+	}
+}
